@@ -45,6 +45,11 @@ def rule_own_dag(ctx: Ctx) -> None:
         for fn in m.functions():
             body_calls = calls_in(fn, nested=False)
             helpers = {call_attr(c) for c in body_calls if (call_name(c) or "").startswith("self.")}
+            if m.rel == DAG:
+                from ..rules import nodeindex as _ni
+                _reach = _ni.index_helpers(repo)
+                for h_ in list(helpers):
+                    helpers |= _reach.get(h_, set())
             for c in body_calls:
                 a = call_attr(c)
                 if not (isinstance(c.func, ast.Attribute) and _is_dag_expr(c.func.value)):
@@ -110,40 +115,8 @@ def _key_kind(e: ast.AST, fn: ast.FunctionDef) -> str:
 
 
 def rule_nodekeys(ctx: Ctx) -> None:
-    repo = ctx.repo
-    m = repo.module(DAG)
-    want = {"labels", "type", "regtypes"}
-    for q, helper in (("CircuitDAG._add_node", "_node_dict_append"), ("CircuitDAG._remove_node", "_node_dict_remove"),
-                      ("CircuitDAG.replace_op", "_node_dict_remove"), ("CircuitDAG.replace_op", "_node_dict_append")):
-        fn = repo.anchor(DAG, q)
-        ctx.touch(m, fn)
-        # per operation object (replace_op handles the old and the new one)
-        kinds: Dict[str, Set[str]] = {}
-        for c in calls_in(fn):
-            if call_name(c) == f"self.{helper}" and c.args:
-                k = _key_kind(c.args[0], fn)
-                # which operation does the key belong to?
-                owner = "?"
-                for x in ast.walk(c.args[0]):
-                    if isinstance(x, ast.Name) and "oper" in x.id:
-                        owner = x.id
-                if k == "labels":
-                    a = parent(c)
-                    while a is not None and not isinstance(a, ast.For):
-                        a = parent(a)
-                    if a is not None:
-                        owner = norm(a.iter).rsplit(".", 1)[0]
-                kinds.setdefault(owner, set()).add(k)
-        if not kinds:
-            raise AnalysisError(f"{q}: no {helper} call")
-        for owner, ks in kinds.items():
-            if ks == want:
-                ctx.ok_abstract("sibling.nodekeys", f"{q}: {helper} maintains labels/type/regtypes of {owner}")
-            else:
-                ctx.fail("sibling.nodekeys", m, fn,
-                         f"{q} calls {helper} for {sorted(ks)} of `{owner}`; its siblings maintain three key kinds (every label, the type "
-                         f"name, the register-type description) — the missing kind {sorted(want - ks)} leaves a stale / missing node_dict entry",
-                         func=q, construct=f"{q}: {helper} kinds {sorted(ks)}")
+    from ..rules import nodeindex
+    nodeindex.rule_nodekeys(ctx)
 
 
 REG_WRITERS = {(REG, "Register"), (BASE, "CircuitBase"), (DAG, "CircuitDAG._add_reg_if_absent")}
